@@ -321,6 +321,14 @@ def exact_cases(draw):
     spec, params, value = draw(V.cases(frag=FRAG - ({"gbytes", "gstr", "grange", "optional", "nullterm", "varint", "zigzag", "cstr", "pascal",
                                                       "parray", "select", "runtil", "terminated", "stopif", "prefixed"} if sized else set()),
                                        depth=3, tail=not sized, rootrefs=True))
+    if spec[0] == "struct" and draw(st.integers(0, 3)) == 0:
+        # look-ahead members: size 0, build nothing, and parsing must not move the stream either - whether the look-ahead
+        # succeeds, meets bytes it refuses, or runs out of data (here: the few trailing bytes after the built ones)
+        spec = [spec[0], list(spec[1])] + spec[2:]
+        for _ in range(draw(st.integers(1, 2))):
+            look = draw(st.sampled_from([["int", 1, False, "b", "alias"], ["int", 4, False, "b", "alias"], ["int", 8, True, "l", "alias"], ["const", b"\xc0\xde", None],
+                                         ["struct", [["a", ["int", 2, False, "b", "alias"]], ["b", ["const", b"\x00", None]]]]]))
+            spec[1].insert(draw(st.integers(0, len(spec[1]))), [None, ["peek", look]])
     withheld = draw(st.lists(st.sampled_from(sorted(params)), unique=True, max_size=len(params))) if params and draw(st.booleans()) else []
     return [spec, params, value, withheld, draw(st.binary(max_size=4))]
 
